@@ -40,6 +40,8 @@ CURATED = [
     [("/a/b/", ["POST"]), ("/a/b/{p1}", ["GET", "POST"]), ("/a/b", ["GET"])],
     # sample.json-like multi-parameter template
     [("/n/{p1}.{p2}.j", ["GET"]), ("/n/{p1}", ["POST"]), ("/n/a.b.j", ["GET"])],
+    # static text outside ASCII (multi-byte UTF-8 in the template)
+    [("/\u00e9/{p1}", ["GET"]), ("/\u00e8", ["GET", "POST"]), ("/{p1}/\u00e9", ["POST"])],
 ]
 
 def random_set():
